@@ -1,6 +1,6 @@
 package logdb
 
-//vcheck:bounds logdb: one (shard, replica) pair plus a bystander pair sharing the store; two saves: entries 1..n1 (n1 <= 5) then a save starting at s <= n1+1 (overwriting a suffix with a newer term) of <= 3 entries; entry terms symbolic (1..127 so that every entry encodes to the same length), hard state symbolic; plain and batched (batch size 4) formats; every [low, high) query; reopen = fresh cache over the same store
+//vcheck:bounds logdb: one (shard, replica) pair plus a bystander pair with mirrored ids sharing the store; two saves: entries 1..n1 (n1 <= 5) then a save starting at s <= n1+1 (overwriting a suffix with a newer term) of <= 3 entries; entry terms symbolic (1..127 so that every entry encodes to the same length), hard state symbolic; plain and batched (batch size 4) formats; every [low, high) query; reopen = fresh cache over the same store
 //vcheck:stub logdb: kv.IKVStore = sorted in-memory key/value list with an atomic write batch (optionally failing at a symbolic call index, C10)
 
 import (
@@ -170,15 +170,17 @@ func VHarness_C09_TwoSaves() {
 	store := &vStore{}
 	d := vOpenDB(store, batched)
 	ctx := newContext(1024, 1024*1024)
-	// a bystander replica in the same store
+	// a bystander replica in the same store: shard 2 / replica 1 next to shard 1 /
+	// replica 2 (mirrored ids, so that a transposed (shard, replica) key anywhere
+	// in the store or its caches makes the two replicas see each other's records)
 	by, _ := vEntries(1, 2, 1)
 	bys := vState("by")
-	vAssert(d.saveRaftState([]pb.Update{{ShardID: 1, ReplicaID: 2, State: bys, EntriesToSave: by}}, ctx) == nil, "bystander-save-ok")
+	vAssert(d.saveRaftState([]pb.Update{{ShardID: 2, ReplicaID: 1, State: bys, EntriesToSave: by}}, ctx) == nil, "bystander-save-ok")
 	ctx.Reset()
 	n1 := vChoose("n1", 5) + 1
 	e1, lastTerm := vEntries(1, n1, 1)
 	st1 := vState("s1")
-	vAssert(d.saveRaftState([]pb.Update{{ShardID: 1, ReplicaID: 1, State: st1, EntriesToSave: e1}}, ctx) == nil, "save1-ok")
+	vAssert(d.saveRaftState([]pb.Update{{ShardID: 1, ReplicaID: 2, State: st1, EntriesToSave: e1}}, ctx) == nil, "save1-ok")
 	ctx.Reset()
 	s := uint64(vChoose("s", n1+1)) + 1 // 1..n1+1
 	n2 := vChoose("n2", 3) + 1
@@ -196,7 +198,7 @@ func VHarness_C09_TwoSaves() {
 	if vBool("stateChanges") {
 		st2 = vState("s2")
 	}
-	ud2 := pb.Update{ShardID: 1, ReplicaID: 1, EntriesToSave: e2}
+	ud2 := pb.Update{ShardID: 1, ReplicaID: 2, EntriesToSave: e2}
 	if st2 != st1 {
 		ud2.State = st2
 	}
@@ -211,11 +213,11 @@ func VHarness_C09_TwoSaves() {
 	low := uint64(vChoose("low", int(last))) + 1
 	high := low + uint64(vChoose("span", int(last-low)+3)) // may exceed the logical end
 	check := func(d *db, tag string) {
-		rs, err := d.readRaftState(1, 1, 0)
+		rs, err := d.readRaftState(1, 2, 0)
 		vAssert(err == nil, tag+"read-state-ok")
 		vAssert(rs.State.Term == st2.Term && rs.State.Vote == st2.Vote && rs.State.Commit == st2.Commit, tag+"hard-state-is-the-last-saved")
 		vAssert(rs.FirstIndex == 1 && rs.EntryCount == last, tag+"first-index-and-length")
-		ents, _, err := d.iterateEntries(nil, 0, 1, 1, low, high, 1<<40)
+		ents, _, err := d.iterateEntries(nil, 0, 1, 2, low, high, 1<<40)
 		vAssert(err == nil, tag+"iterate-ok")
 		want := high
 		if want > last+1 {
@@ -228,9 +230,9 @@ func VHarness_C09_TwoSaves() {
 			vAssert(ents[i].Term == logical[ents[i].Index-1].Term, tag+"never-a-stale-overwritten-entry")
 		}
 		// the bystander still reads its own log and state
-		brs, err := d.readRaftState(1, 2, 0)
+		brs, err := d.readRaftState(2, 1, 0)
 		vAssert(err == nil && brs.EntryCount == 2 && brs.State.Term == bys.Term && brs.State.Vote == bys.Vote, tag+"bystander-unaffected")
-		bents, _, err := d.iterateEntries(nil, 0, 1, 2, 1, 3, 1<<40)
+		bents, _, err := d.iterateEntries(nil, 0, 2, 1, 1, 3, 1<<40)
 		vAssert(err == nil && len(bents) == 2 && bents[0].Term == by[0].Term && bents[1].Term == by[1].Term, tag+"bystander-entries-unaffected")
 	}
 	check(d, "")
